@@ -13,6 +13,7 @@ fn main() {
         Some("cache") => std::process::exit(cache_case(&args[2..])),
         Some("locality") => std::process::exit(locality_case(&args[2], &args[3])),
         Some("config") => std::process::exit(config_case(&args[2..])),
+        Some("comment") => std::process::exit(comment_case(&args[2], &args[3])),
         Some("remove-overlaps-raw") => {
             // prints the identity tags of the surviving lints, in output order (translation validation of mirsym)
             let mut v = parse_lints(args.get(2).map(|s| s.as_str()).unwrap_or(""));
@@ -326,6 +327,29 @@ fn config_case(args: &[String]) -> i32 {
             }
         }
         _ => return 2,
+    }
+    bad
+}
+
+/// C01/C04 kernel: a source file consisting of the given comment text (tried with a few comment-leader decorations,
+/// since the symbolic counterexample is the text the wrapper saw, not a whole file) is turned into a document without a
+/// panic and with all tokens inside the file.
+fn comment_case(wrapper: &str, text: &str) -> i32 {
+    use harper_core::Document;
+    let lang = match wrapper { "Go" => "go", "JsDoc" => "javascript", _ => "rust" };
+    let mut bad = 0;
+    for file in [text.to_string(), format!("/{text}"), format!("//{text}"), format!("{text}//"), format!("/{text}//"), format!("//{text}//"), format!("/*{text}*/")] {
+        let parser = harper_comments::CommentParser::new_from_language_id(lang, Default::default()).unwrap();
+        let res = std::panic::catch_unwind(std::panic::AssertUnwindSafe(|| {
+            let doc = Document::new_curated(&file, &parser);
+            let len = file.chars().count();
+            doc.get_tokens().iter().all(|t| t.span.start <= t.span.end && t.span.end <= len)
+        }));
+        match res {
+            Err(_) => { println!("VIOLATED: panic while parsing the {lang} file {:?}", file); return 101; }
+            Ok(false) => { println!("VIOLATED: token outside the file for {:?}", file); bad = 1; }
+            Ok(true) => {}
+        }
     }
     bad
 }
